@@ -3,7 +3,7 @@ from props.fsmlib import *
 
 def cases(tier):
     L = []
-    fams = ['f5', 'f10', 'foroot', 'fw5'] if tier == 'quick' else ['f5', 'f10', 'foroot', 'fsel', 'f3w', 'fpeer', 'fdeep', 'fo2', 'f12', 'fw5']
+    fams = ['f5', 'f10', 'foroot', 'fw5', 'fo3c'] if tier == 'quick' else ['f5', 'f10', 'foroot', 'fsel', 'f3w', 'fpeer', 'fdeep', 'fo2', 'f12', 'fw5', 'fo3c']
     T = 1 if tier == 'quick' else 3
     for manual in (False, True):
         for fam in fams:
